@@ -222,6 +222,7 @@ func checkC08(p *Prog, r *Report) {
 
 	checkTaintedBounds(p, r, append(append(server, client...), sshd...))
 	checkEnvStreams(p, r)
+	checkConstIndex(p, r, append(append(server, client...), sshd...))
 
 	r.Assume("foreign code calls only function values and interface methods it was handed; no reflection/unsafe/cgo in module code")
 	r.Uncovered("nil dereferences, arithmetic-dependent index panics, type-assertion panics, panics inside dependencies, memory exhaustion (excluded by the statement), whether the error is reported to the peer")
